@@ -131,3 +131,26 @@ package commonmark
 //@   loop 0: decreases openDelimIndex - i
 //@   nosafety nil the nodes of delimiter-stack elements are never nil (assumption A-NODEINV)
 //@   serves C05, C04
+
+// ---------------------------------------------------------------------------
+// lookForLinkOrImage (C05, CommonMark 0.30 "look for link or image"): the
+// bracket that a ']' is paired with is the nearest '[' or '![' opener on the
+// stack, and only if it is still active; an inactive opener is dropped from
+// the stack and nothing is paired (this is what makes the deactivation done by
+// finishLink effective: a deactivated '[' can never become a link).
+// ---------------------------------------------------------------------------
+
+//@ func (*InlineParser).lookForLinkOrImage
+//@   requires[state] !isnil(state)
+//@   modifies state.stack, state.stack[0:len(state.stack)]
+//@   ensures[found] result >= 0 ==> (result < len(state.stack) && len(state.stack) == len(old(state.stack))
+//@       && (state.stack[result].typ == 3 || state.stack[result].typ == 4) && state.stack[result].flags % 2 == 1
+//@       && (forall j in [result + 1, len(state.stack)): state.stack[j].typ != 3 && state.stack[j].typ != 4))
+//@   ensures[active] result >= 0 ==> old(state.stack[result].flags) % 2 == 1
+//@   ensures[range] result >= -1
+//@   ensures[none] result == -1 ==> (len(state.stack) == len(old(state.stack)) || len(state.stack) == len(old(state.stack)) - 1)
+//@   loop 0: invariant[scan] !isnil(state) && -1 <= i && i < len(state.stack) && len(state.stack) == len(old(state.stack))
+//@       && (forall j in [i + 1, len(state.stack)): state.stack[j].typ != 3 && state.stack[j].typ != 4)
+//@   loop 0: invariant[frame] framed()
+//@   loop 0: decreases i + 1
+//@   serves C05, C04
